@@ -9,6 +9,9 @@ pub open spec fn min_spec(a: usize, b: usize) -> usize { if a <= b { a } else { 
 // core::cmp::min on usize (rule R-misc)
 pub fn cmp_min(a: usize, b: usize) -> (r: usize) ensures r == min_spec(a, b) { if a <= b { a } else { b } }
 
+// rule R-panic: a function that may panic returns PanicOr; `ret is Panic <==> ..` is then an ordinary postcondition
+pub enum PanicOr<R> { Panic, Ret(R) }
+
 // ===================== engine-V prelude: slot ledger (TRUSTED) =====================
 // Rule R-slots: a field or local of type GenericArray<T,N> / ManuallyDrop<..> / GenericArray<MaybeUninit<T>,N> becomes
 // `Slots<T,N>`, whose view is Seq<Option<T>>: Some(v) = slot initialised and owned here, None = uninitialised / moved out /
@@ -120,9 +123,15 @@ pub struct LengthError;
 pub trait ForeignIter<T> {
     spec fn returned(&self) -> Seq<Option<T>>;
     spec fn hint(&self) -> (usize, Option<usize>);
+    // whatever the iterator's owner needs preserved across polls, and ghost data that stays fixed (used by the closure
+    // conversion of lazy adapter pipelines, rule R-pipe; an opaque caller-supplied iterator may choose `true` / `()`)
+    spec fn inv(&self) -> bool;
+    type K;
+    spec fn konst(&self) -> Self::K;
     fn next(&mut self) -> (r: Option<T>)
-        ensures final(self).returned() == old(self).returned().push(r), final(self).hint() == old(self).hint();
-    fn size_hint(&self) -> (r: (usize, Option<usize>)) ensures r == self.hint();
+        requires old(self).inv(),
+        ensures final(self).inv(), final(self).konst() == old(self).konst(), final(self).returned() == old(self).returned().push(r);
+    fn size_hint(&self) -> (r: (usize, Option<usize>)) requires self.inv(), ensures r == self.hint();
 }
 pub open spec fn polled_after_none<T>(s: Seq<Option<T>>) -> bool {
     exists|i: int| 0 <= i < s.len() - 1 && (#[trigger] s[i]).is_none()
@@ -179,8 +188,10 @@ impl<T, N: ArrayLength> IntrusiveArrayBuilder<T, N> {
             old(self).wf(),
             old(self).position == 0,
             !polled_after_none(old(source).returned()),
+            old(source).inv(),
         ensures
             final(self).wf(), /*OB:extend.post.wf:C03,C04*/
+            final(source).inv() && final(source).konst() == old(source).konst(), /*OB:extend.post.source-inv:C04,C07*/
             final(source).returned().len() == old(source).returned().len() + final(self).position + (if final(self).position < N::n() { 1int } else { 0int }), /*OB:extend.post.polls:C07*/
             final(source).returned().subrange(0, old(source).returned().len() as int) == old(source).returned(), /*OB:extend.post.prefix:C07*/
             forall|k: int| 0 <= k < final(self).position ==> (#[trigger] final(source).returned()[old(source).returned().len() + k]) == Some(final(self).built()[k]), /*OB:extend.post.in-order:C07*/
@@ -188,7 +199,7 @@ impl<T, N: ArrayLength> IntrusiveArrayBuilder<T, N> {
     {
         let ghost r0 = source.returned();
         let mut __k: usize = 0;
-        loop invariant_except_break self.wf(), self.position == __k, __k <= N::n(), source.returned().len() == r0.len() + __k, source.returned().subrange(0, r0.len() as int) == r0, forall|j: int| 0 <= j < __k ==> (#[trigger] source.returned()[r0.len() + j]) == Some(self.built()[j]), ensures self.wf(), source.returned().len() == r0.len() + self.position + (if self.position < N::n() { 1int } else { 0int }), source.returned().subrange(0, r0.len() as int) == r0, forall|j: int| 0 <= j < self.position ==> (#[trigger] source.returned()[r0.len() + j]) == Some(self.built()[j]), self.position < N::n() ==> source.returned().last().is_none(), decreases N::n() - __k, {
+        loop invariant_except_break self.wf(), self.position == __k, __k <= N::n(), source.returned().len() == r0.len() + __k, source.returned().subrange(0, r0.len() as int) == r0, forall|j: int| 0 <= j < __k ==> (#[trigger] source.returned()[r0.len() + j]) == Some(self.built()[j]), invariant source.inv(), source.konst() == old(source).konst(), ensures self.wf(), source.returned().len() == r0.len() + self.position + (if self.position < N::n() { 1int } else { 0int }), source.returned().subrange(0, r0.len() as int) == r0, forall|j: int| 0 <= j < self.position ==> (#[trigger] source.returned()[r0.len() + j]) == Some(self.built()[j]), self.position < N::n() ==> source.returned().last().is_none(), decreases N::n() - __k, {
             if __k >= N::usize_() {
                 break;
             }
@@ -269,7 +280,9 @@ impl<T, N: ArrayLength> IntrusiveArrayBuilder<T, N> {
     pub fn try_from_iter<T, N: ArrayLength, I: ForeignIter<T>>(iter: &mut I) -> (ret: Result<GenericArray<T, N>, LengthError>)
         requires
             old(iter).returned().len() == 0,
+            old(iter).inv(),
         ensures
+            final(iter).inv() && final(iter).konst() == old(iter).konst(), /*OB:try_from_iter.post.source-inv:C04,C07*/
             final(iter).returned().len() <= N::n() + 1, /*OB:try_from_iter.post.at-most-N+1-polls:C07*/
             !polled_after_none(final(iter).returned()), /*OB:try_from_iter.post.never-polled-after-None:C07*/
             ret is Ok ==> final(iter).returned().len() == N::n() + 1 && final(iter).returned().last().is_none() && forall|k: int| 0 <= k < N::n() ==> (#[trigger] final(iter).returned()[k]) == Some(ret->Ok_0.elems()[k]), /*OB:try_from_iter.post.ok-means-exactly-N-in-order:C07,C04*/
@@ -391,6 +404,189 @@ impl<T, N: ArrayLength> IntrusiveArrayBuilder<T, N> {
             let ghost b1 = builder.built();
             let array = builder.finish();
             ({ proof { assert(array.all_live()); assert forall|k: int| 0 <= k < N::n() implies array.view()[k].unwrap() == (#[trigger] f.log()[k]).1 by { assert(f.log()[k].1 == b1[k]); } } box_assume_init(array) })
+        }
+    }
+
+// ===== extracted: src/internal.rs ArrayConsumer =====
+// rule R-slots: `array: ManuallyDrop<GenericArray<T, N>>` becomes the slot ledger
+pub struct ArrayConsumer<T, N: ArrayLength> { pub array: Slots<T, N>, pub position: usize }
+impl<T, N: ArrayLength> ArrayConsumer<T, N> {
+    // the guard's invariant: exactly the slots from `position` on are still owned
+    pub open spec fn wf(&self) -> bool {
+        &&& self.position <= N::n()
+        &&& self.array.ok()
+        &&& forall|k: int| 0 <= k < N::n() ==> ((#[trigger] self.array.view()[k]).is_some() <==> k >= self.position)
+    }
+
+    // extracted from src/internal.rs:133  `fn new(array: GenericArray<T, N>) -> ArrayConsumer<T, N>`
+    pub fn new(array: GenericArray<T, N>) -> (r: Self)
+        requires
+            array.slots.ok(),
+            array.slots.all_live(),
+        ensures
+            r.wf() && r.position == 0 && r.array == array.slots, /*OB:consumer_new.post.wf:C03,C04*/
+    {
+        ArrayConsumer {
+            array: array.slots, position: 0,
+        }
+    }
+
+    // extracted from src/internal.rs:146  `fn drop(&mut self)`
+    pub fn drop_impl(&mut self)
+        requires
+            old(self).wf(),
+        ensures
+            final(self).array.ok() && final(self).array.all_dead(), /*OB:consumer_drop.post.releases-unconsumed:C03,C04*/
+    {
+        {
+            self.array.drop_range(self.position, N::usize_());
+        }
+    }
+
+}
+
+    // extracted from src/lib.rs:260  `fn from_iter<I>(iter: I) -> GenericArray<T, N> where I: IntoIterator<Item = T>,`
+    pub fn from_iter<T, N: ArrayLength, I: ForeignIter<T>>(iter: &mut I) -> (ret: PanicOr<GenericArray<T, N>>)
+        requires
+            old(iter).returned().len() == 0,
+            old(iter).inv(),
+        ensures
+            final(iter).inv() && final(iter).konst() == old(iter).konst(), /*OB:from_iter.post.source-inv:C04,C07*/
+            final(iter).returned().len() <= N::n() + 1 && !polled_after_none(final(iter).returned()), /*OB:from_iter.post.polls:C07*/
+            ret is Ret ==> final(iter).returned().len() == N::n() + 1 && final(iter).returned().last().is_none() && forall|k: int| 0 <= k < N::n() ==> (#[trigger] final(iter).returned()[k]) == Some(ret->Ret_0.elems()[k]), /*OB:from_iter.post.returns-means-exactly-N-in-order:C07*/
+            ret is Panic ==> ( old(iter).hint().0 > N::n() || (old(iter).hint().1 is Some && old(iter).hint().1->Some_0 < N::n()) || (exists|k: int| 0 <= k < final(iter).returned().len() && k < N::n() && (#[trigger] final(iter).returned()[k]).is_none()) || (final(iter).returned().len() == N::n() + 1 && final(iter).returned().last().is_some()) ), /*OB:from_iter.post.panics-only-with-a-reason:C07*/
+    {
+        match try_from_iter::<T, N, I>(iter) {
+            Ok(res) => PanicOr::Ret(res), Err(_) => PanicOr::Panic,
+        }
+    }
+
+    // extracted from src/lib.rs:423  `fn fold<U, F>(self, init: U, mut f: F) -> U where F: FnMut(U, T) -> U,`
+    pub fn fold<T, U, N: ArrayLength, F: Foreign2<U, T, U>>(this: GenericArray<T, N>, init: U, f: &mut F) -> (ret: U)
+        requires
+            this.slots.ok(),
+            this.slots.all_live(),
+            old(f).log().len() == 0,
+        ensures
+            final(f).log().len() == N::n(), /*OB:fold.post.once-per-index:C08*/
+            forall|k: int| 0 <= k < N::n() ==> (#[trigger] final(f).log()[k]).1 == this.elems()[k], /*OB:fold.post.ascending:C08*/
+            (N::n() == 0 ==> ret == init) && (N::n() > 0 ==> final(f).log()[0].0 == init && ret == final(f).log().last().2) && forall|k: int| 0 < k < N::n() ==> (#[trigger] final(f).log()[k]).0 == final(f).log()[k - 1].2, /*OB:fold.post.left-fold:C08*/
+    {
+        let ghost e0 = this.elems();
+        {
+            let mut source = ArrayConsumer::new(this);
+            {
+                let mut acc = init;
+                let mut __k: usize = 0;
+                while __k < N::usize_() invariant source.wf(), source.position == __k, __k <= N::n(), forall|j: int| __k <= j < N::n() ==> (#[trigger] source.array.view()[j]) == Some(e0[j]), f.log().len() == __k, forall|j: int| 0 <= j < __k ==> (#[trigger] f.log()[j]).1 == e0[j], __k == 0 ==> acc == init, __k > 0 ==> f.log()[0].0 == init && acc == f.log().last().2, forall|j: int| 0 < j < __k ==> (#[trigger] f.log()[j]).0 == f.log()[j - 1].2, decreases N::n() - __k, {
+                    let src = __k;
+                    let value = source.array.take(src);
+                    source.position += 1;
+                    proof {
+                        assert(source.wf()) /*OB:fold.unwind@closure:C04*/;
+                        assert(value == e0[__k as int]);
+                    }
+                    acc = f.call(acc, value);
+                    __k += 1;
+                }
+                let __ret = acc;
+                source.drop_impl();
+                __ret
+            }
+        }
+    }
+
+
+// ===== closure conversion (rule R-pipe) of the pipeline in FunctionalSequence::map =====
+//   fields = the captured variables (the consumer that iter_position() aliases, the closure), k = cursor of the slice
+//   iterator; next() = slice::Iter::next followed by the closure body VERBATIM (modulo R-read and the alias substitution)
+pub struct MapPipe<T, U, N: ArrayLength, F: Foreign1<T, U>> {
+    pub source: ArrayConsumer<T, N>,
+    pub k: usize,
+    pub f: F,
+    pub ret: Ghost<Seq<Option<U>>>,
+    pub elems0: Ghost<Seq<T>>,
+    pub _u: core::marker::PhantomData<U>,
+}
+impl<T, U, N: ArrayLength, F: Foreign1<T, U>> ForeignIter<U> for MapPipe<T, U, N, F> {
+    type K = Seq<T>;
+    open spec fn konst(&self) -> Seq<T> { self.elems0@ }
+    open spec fn returned(&self) -> Seq<Option<U>> { self.ret@ }
+    open spec fn hint(&self) -> (usize, Option<usize>) { ((N::n() - self.k) as usize, Some((N::n() - self.k) as usize)) }
+    open spec fn inv(&self) -> bool {
+        &&& self.source.wf() && self.k <= N::n() && self.elems0@.len() == N::n()
+        &&& (self.k < N::n() ==> self.source.position == self.k)
+        &&& (self.k == N::n() ==> self.source.position == N::n())
+        &&& forall|j: int| self.source.position <= j < N::n() ==> (#[trigger] self.source.array.view()[j]) == Some(self.elems0@[j])
+        &&& self.f.log().len() == self.source.position
+        &&& forall|j: int| 0 <= j < self.source.position ==> (#[trigger] self.f.log()[j]).0 == self.elems0@[j]
+        &&& self.ret@.len() >= self.source.position
+        &&& forall|j: int| 0 <= j < self.source.position ==> (#[trigger] self.ret@[j]) == Some(self.f.log()[j].1)
+        &&& forall|j: int| self.source.position <= j < self.ret@.len() ==> (#[trigger] self.ret@[j]).is_none()
+        &&& (self.ret@.len() > self.source.position ==> self.k == N::n())
+    }
+    fn next(&mut self) -> (r: Option<U>)
+    {
+        if self.k >= N::usize_() {
+            proof { self.ret = Ghost(self.ret@.push(None)); }
+            return None;
+        }
+        let src = self.k;
+        self.k += 1;
+
+        let value = self.source.array.take(src);
+        self.source.position += 1;
+        proof {
+            assert(self.source.wf()) /*OB:map.unwind@closure:C04*/;
+        }
+        let r = self.f.call(value);
+        proof {
+            self.ret = Ghost(self.ret@.push(Some(r)));
+        }
+        Some(r)
+    }
+    fn size_hint(&self) -> (r: (usize, Option<usize>)) { (N::usize_() - self.k, Some(N::usize_() - self.k)) }
+}
+
+    // extracted from src/lib.rs:393  `fn map<U, F>(self, mut f: F) -> MappedSequence<Self, T, U> where Self: MappedGenericSequence<T, U>, F: FnMut(T) -> U,`
+    pub fn map<T, U, N: ArrayLength, F: Foreign1<T, U>>(this: GenericArray<T, N>, f: F) -> (ret: (PanicOr<GenericArray<U, N>>, F))
+        requires
+            this.slots.ok(),
+            this.slots.all_live(),
+            f.log().len() == 0,
+        ensures
+            ret.0 is Ret, /*OB:map.post.never-the-length-panic:C08*/
+            ret.1.log().len() == N::n(), /*OB:map.post.once-per-index:C08*/
+            forall|k: int| 0 <= k < N::n() ==> (#[trigger] ret.1.log()[k]).0 == this.elems()[k], /*OB:map.post.ascending:C08*/
+            forall|k: int| 0 <= k < N::n() ==> (#[trigger] ret.0->Ret_0.elems()[k]) == ret.1.log()[k].1, /*OB:map.post.result-k-at-index-k:C08*/
+    {
+        let ghost e0 = this.elems();
+        {
+            let source = ArrayConsumer::new(this);
+            {
+                let mut pipe = MapPipe {
+                    source: source, k: 0, f: f, ret: Ghost(Seq::empty()), elems0: Ghost(e0), _u: core::marker::PhantomData
+                };
+                proof {
+                    assert(pipe.inv());
+                }
+                let r = from_iter::<U, N, MapPipe<T, U, N, F>>(&mut pipe);
+                proof {
+                    assert(pipe.elems0@ == e0);
+                    assert(pipe.source.position == N::n());
+                    assert forall|k: int| 0 <= k < N::n() implies (#[trigger] r->Ret_0.elems()[k]) == pipe.f.log()[k].1 by {
+                        assert(pipe.returned()[k] == Some(r->Ret_0.elems()[k]));
+                        assert(pipe.ret@[k] == Some(pipe.f.log()[k].1));
+                    }
+                }
+                let MapPipe {
+                    source, k: _, f, ret: _, elems0: _, _u: _
+                }
+                = pipe;
+                let mut source = source;
+                source.drop_impl();
+                (r, f)
+            }
         }
     }
 
